@@ -3,3 +3,286 @@ From Coq Require Import List Ascii String ZArith Bool Lia.
 From Shexer Require Import Lib.PyStr Lib.Dict Gen.Consts Spec.Rdf Spec.TtlSyntax Spec.TtlDomain Model.TtlReader.
 Import ListNotations.
 Local Open Scope Z_scope.
+
+(** ** T1 -- the state machine, for any placement of the line breaks *)
+
+(** the machine run over an already tokenised line *)
+Fixpoint machine (toks : list str) (s : st) : list triple * res st :=
+  match toks with
+  | [] => ([], Ok s)
+  | t :: toks' =>
+    match step s t with
+    | (ts, Ok s') => let (ts', r) := machine toks' s' in (ts ++ ts', r)
+    | (ts, Err e) => (ts, Err e)
+    end
+  end.
+
+(** ... and over several lines, the state persisting from one line to the next *)
+Fixpoint machine_lines (ls : list (list str)) (s : st) : list triple * res st :=
+  match ls with
+  | [] => ([], Ok s)
+  | l :: ls' =>
+    match machine l s with
+    | (ts, Ok s') => let (ts', r) := machine_lines ls' s' in (ts ++ ts', r)
+    | (ts, Err e) => (ts, Err e)
+    end
+  end.
+
+Lemma machine_app a b s :
+  machine (a ++ b) s =
+  match machine a s with
+  | (ts, Ok s') => let (ts', r) := machine b s' in (ts ++ ts', r)
+  | (ts, Err e) => (ts, Err e)
+  end.
+Proof.
+  revert s; induction a as [|t a IH]; intros s; cbn.
+  - destruct (machine b s); reflexivity.
+  - destruct (step s t) as [ts [s'|e]]; [|reflexivity].
+    rewrite IH. destruct (machine a s') as [ts1 [s1|e1]].
+    + destruct (machine b s1) as [ts2 r2]. rewrite app_assoc. reflexivity.
+    + reflexivity.
+Qed.
+
+(** the line structure is irrelevant: only the token sequence matters *)
+Lemma machine_lines_concat ls s : machine_lines ls s = machine (List.concat ls) s.
+Proof.
+  revert s; induction ls as [|l ls IH]; intros s; cbn; [reflexivity|].
+  rewrite machine_app. destruct (machine l s) as [ts [s'|e]]; [|reflexivity].
+  rewrite IH. reflexivity.
+Qed.
+
+Definition same_env (s s' : st) : Prop := prefixes s = prefixes s' /\ base s = base s'.
+
+Lemma same_env_refl s : same_env s s. Proof. split; reflexivity. Qed.
+
+Definition erase_obj (o : obj) : obj := match o with OL _ dt => OL [] dt | ON n => ON n end.
+
+Lemma erase_lex_T n p o : erase_lex (T n p o) = T n p (erase_obj o).
+Proof. destruct o; reflexivity. Qed.
+
+(** what [_next_line_token] hands over for the token text [tok] *)
+Definition vtok (b : option str) (tok : str) : str :=
+  if prefixb s_lt tok then match parse_cornered b tok with Ok r => r | Err _ => tok end else tok.
+
+Definition closure_tok (t : atok) : bool :=
+  match t with AComma | ASemi | ADot => true | _ => false end.
+
+Section StateMachine.
+  (** [e]: the environment of the spec; [s0]: any reader state with the
+      corresponding prefixes and base.  [okS/okP/okO]: a token-level domain
+      on which each token alone is read correctly (T4 provides it). *)
+  Variable e : env.
+  Variable s0 : st.
+  Variables (okS : subj -> bool) (okP : pred -> bool) (okO : object -> bool).
+
+  Definition tokS (x : subj) : str := vtok (base s0) (render_subj x).
+  Definition tokP (x : pred) : str := vtok (base s0) (render_pred x).
+  Definition tokO (x : object) : str := vtok (base s0) (render_obj x).
+
+  Definition tok_str (t : atok) : str :=
+    match t with
+    | ASubj x => tokS x | APred x => tokP x | AObj x => tokO x
+    | AComma => Str "," | ASemi => Str ";" | ADot => Str "."
+    end.
+
+  Hypothesis HS : forall x n s, same_env s s0 -> okS x = true -> sem_subj e x = Some n ->
+    closure_state (tokS x) = None /\
+    exists raw, parse_elem s (tokS x) = Ok (Some raw) /\ tune_subj (Some raw) = Ok n.
+  Hypothesis HP : forall x p s, same_env s s0 -> okP x = true -> sem_pred e x = Some p ->
+    closure_state (tokP x) = None /\
+    exists raw, parse_elem s (tokP x) = Ok (Some raw) /\ tune_prop (Some raw) = Ok p.
+  Hypothesis HO : forall x o s, same_env s s0 -> okO x = true -> sem_obj e x = Some o ->
+    closure_state (tokO x) = None /\
+    exists raw o', parse_elem s (tokO x) = Ok (Some raw) /\
+                   tune_token (Some raw) (base s) ttl_dflt_allow_untyped_numbers = Ok o' /\
+                   erase_obj o' = erase_obj o.
+
+  Definition group_ok (g : group) : bool :=
+    okS (g_subj g) && negb (Nat.eqb (List.length (g_pos g)) 0) &&
+    forallb (fun po => okP (fst po) && negb (Nat.eqb (List.length (snd po)) 0) && forallb okO (snd po)) (g_pos g).
+
+  (** registers loaded with a subject and a predicate that tune to [n], [p] *)
+  Definition loaded_sp (s : st) (n : node) (p : str) : Prop :=
+    same_env s s0 /\ tune_subj (tmp_s s) = Ok n /\ tune_prop (tmp_p s) = Ok p.
+
+  (** one object followed by a closure token *)
+  Lemma obj_then_closure x o c cs s n p :
+    loaded_sp s n p -> state s = WO -> okO x = true -> sem_obj e x = Some o ->
+    closure_state c = Some cs ->
+    exists s' o', machine [tokO x; c] s = ([T n p o'], Ok s') /\ erase_obj o' = erase_obj o /\
+                  loaded_sp s' n p /\ state s' = cs.
+  Proof.
+    intros (Henv & Hn & Hp) Hst Hok Hsem Hc.
+    destruct (HO x o s Henv Hok Hsem) as (Hnc & raw & o' & Hpe & Htt & Her).
+    exists (St (prefixes s) (base s) cs (tmp_s s) (tmp_p s) (Some raw)), o'.
+    cbn [machine]. unfold step at 1. rewrite Hnc. unfold assign. rewrite Hst, Hpe. cbn [bind].
+    unfold step. rewrite Hc. unfold tune_triple. cbn [tmp_s tmp_p tmp_o base].
+    rewrite Hn, Hp, Htt. cbn [bind]. cbn.
+    repeat split; auto; try apply Henv.
+  Qed.
+
+  Definition sem_objs (os : list object) : option (list obj) := seq_opt (map (sem_obj e) os).
+
+  Lemma seq_opt_cons {A} (a : option A) l r :
+    seq_opt (a :: l) = Some r -> exists x r', a = Some x /\ seq_opt l = Some r' /\ r = x :: r'.
+  Proof.
+    cbn. destruct a as [x|]; [|discriminate]. destruct (seq_opt l) as [r'|]; cbn; [|discriminate].
+    intros H; inversion H; subst. eauto.
+  Qed.
+
+  (** an object list [o1 , o2 , ... on] followed by the closure [c] *)
+  Lemma objs_then_closure os : forall x ms c cs s n p,
+    loaded_sp s n p -> state s = WO ->
+    forallb okO (x :: os) = true -> sem_objs (x :: os) = Some ms ->
+    closure_state c = Some cs ->
+    exists s' ts, machine (map tok_str (sep_concat [AComma] (map (fun o => [AObj o]) (x :: os))) ++ [c]) s = (ts, Ok s') /\
+                  map erase_lex ts = map erase_lex (map (T n p) ms) /\
+                  loaded_sp s' n p /\ state s' = cs.
+  Proof.
+    induction os as [|y os IH]; intros x ms c cs s n p Hl Hst Hok Hsem Hc.
+    - cbn in Hok. rewrite andb_true_r in Hok.
+      apply seq_opt_cons in Hsem. destruct Hsem as (o & r' & Ho & Hr & ->). cbn in Hr. inversion Hr; subst.
+      destruct (obj_then_closure x o c cs s n p Hl Hst Hok Ho Hc) as (s' & o' & Hm & He & Hl' & Hs').
+      exists s', [T n p o']. cbn [sep_concat map app tok_str]. split; [exact Hm|].
+      split; [cbn; rewrite !erase_lex_T, He; reflexivity | auto].
+    - cbn [forallb] in Hok. apply andb_true_iff in Hok. destruct Hok as [Hx Hrest].
+      apply seq_opt_cons in Hsem. destruct Hsem as (o & r' & Ho & Hr & ->).
+      destruct (obj_then_closure x o (Str ",") WO s n p Hl Hst Hx Ho eq_refl) as (s1 & o' & Hm & He & Hl1 & Hs1).
+      destruct (IH y r' c cs s1 n p Hl1 Hs1 Hrest Hr Hc) as (s2 & ts & Hm2 & He2 & Hl2 & Hs2).
+      exists s2, (T n p o' :: ts).
+      change (sep_concat [AComma] (map (fun o0 => [AObj o0]) (x :: y :: os)))
+        with ([AObj x] ++ [AComma] ++ sep_concat [AComma] (map (fun o0 => [AObj o0]) (y :: os))).
+      rewrite !map_app, <- !app_assoc.
+      change (map tok_str [AObj x] ++ map tok_str [AComma] ++ ?r) with ([tokO x; Str ","] ++ r).
+      rewrite machine_app, Hm, Hm2. split; [reflexivity|].
+      split; [cbn; rewrite !erase_lex_T, He; f_equal; exact He2 | auto].
+  Qed.
+
+  Definition loaded_s (s : st) (n : node) : Prop := same_env s s0 /\ tune_subj (tmp_s s) = Ok n.
+
+  (** predicate, object list, closure *)
+  Lemma po_then_closure po ms q c cs s n :
+    loaded_s s n -> state s = WP ->
+    okP (fst po) = true -> negb (Nat.eqb (List.length (snd po)) 0) = true -> forallb okO (snd po) = true ->
+    sem_pred e (fst po) = Some q -> sem_objs (snd po) = Some ms ->
+    closure_state c = Some cs ->
+    exists s' ts, machine (map tok_str (po_tokens po) ++ [c]) s = (ts, Ok s') /\
+                  map erase_lex ts = map erase_lex (map (T n q) ms) /\
+                  loaded_s s' n /\ state s' = cs.
+  Proof.
+    destruct po as [x os]. cbn [fst snd]. intros (Henv & Hn) Hst Hx Hne Hos Hq Hms Hc.
+    destruct os as [|o os]; [discriminate|].
+    destruct (HP x q s Henv Hx Hq) as (Hnc & raw & Hpe & Htp).
+    set (s1 := St (prefixes s) (base s) WO (tmp_s s) (Some raw) (tmp_o s)).
+    assert (Hl1 : loaded_sp s1 n q) by (repeat split; auto; apply Henv).
+    destruct (objs_then_closure os o ms c cs s1 n q) as (s2 & ts & Hm & He & Hl2 & Hs2); auto.
+    exists s2, ts. unfold po_tokens. cbn [fst snd].
+    change (map tok_str (APred x :: ?l) ++ [c]) with ([tokP x] ++ (map tok_str l ++ [c])). rewrite machine_app.
+    cbn [machine]. unfold step at 1. rewrite Hnc. unfold assign. rewrite Hst, Hpe. cbn [bind]. fold s1.
+    rewrite Hm. cbn. split; [reflexivity|]. split; [exact He|].
+    destruct Hl2 as (A & B & C). repeat split; auto; apply A.
+  Qed.
+
+  Definition po_ok (po : pred * list object) : bool :=
+    okP (fst po) && negb (Nat.eqb (List.length (snd po)) 0) && forallb okO (snd po).
+
+  Lemma sem_po_inv n po ts :
+    sem_po e n po = Some ts ->
+    exists q ms, sem_pred e (fst po) = Some q /\ sem_objs (snd po) = Some ms /\ ts = map (T n q) ms.
+  Proof.
+    unfold sem_po, sem_objs. destruct (sem_pred e (fst po)) as [q|]; [|discriminate].
+    destruct (seq_opt (map (sem_obj e) (snd po))) as [ms|]; cbn; [|discriminate].
+    intros H; inversion H; eauto.
+  Qed.
+
+  (** the predicate-object lists of a group, separated by [;], closed by [.] *)
+  Lemma pos_then_dot pos : forall po tss s n,
+    loaded_s s n -> state s = WP ->
+    forallb po_ok (po :: pos) = true ->
+    seq_opt (map (sem_po e n) (po :: pos)) = Some tss ->
+    exists s' ts, machine (map tok_str (sep_concat [ASemi] (map po_tokens (po :: pos)) ++ [ADot])) s = (ts, Ok s') /\
+                  map erase_lex ts = map erase_lex (List.concat tss) /\
+                  same_env s' s0 /\ state s' = WS.
+  Proof.
+    induction pos as [|po2 pos IH]; intros po tss s n Hl Hst Hok Hsem.
+    - cbn in Hok. rewrite andb_true_r in Hok. unfold po_ok in Hok. rewrite !andb_true_iff in Hok.
+      destruct Hok as [[Hx Hne] Hos].
+      apply seq_opt_cons in Hsem. destruct Hsem as (ts0 & r' & Hpo & Hr & ->). cbn in Hr. inversion Hr; subst.
+      apply sem_po_inv in Hpo. destruct Hpo as (q & ms & Hq & Hms & ->).
+      destruct (po_then_closure po ms q (Str ".") WS s n Hl Hst Hx Hne Hos Hq Hms eq_refl) as (s' & ts & Hm & He & Hl' & Hs').
+      exists s', ts. cbn [sep_concat map]. rewrite map_app. cbn [map tok_str].
+      split; [exact Hm|]. split; [cbn; rewrite app_nil_r; exact He|]. split; [apply Hl' | exact Hs'].
+    - cbn [forallb] in Hok. apply andb_true_iff in Hok. destruct Hok as [Hpo_ok Hrest].
+      unfold po_ok in Hpo_ok. rewrite !andb_true_iff in Hpo_ok. destruct Hpo_ok as [[Hx Hne] Hos].
+      apply seq_opt_cons in Hsem. destruct Hsem as (ts0 & r' & Hpo & Hr & ->).
+      apply sem_po_inv in Hpo. destruct Hpo as (q & ms & Hq & Hms & ->).
+      destruct (po_then_closure po ms q (Str ";") WP s n Hl Hst Hx Hne Hos Hq Hms eq_refl) as (s1 & ts1 & Hm1 & He1 & Hl1 & Hs1).
+      destruct (IH po2 r' s1 n Hl1 Hs1 Hrest Hr) as (s2 & ts2 & Hm2 & He2 & Henv2 & Hs2).
+      exists s2, (ts1 ++ ts2).
+      change (sep_concat [ASemi] (map po_tokens (po :: po2 :: pos)))
+        with (po_tokens po ++ [ASemi] ++ sep_concat [ASemi] (map po_tokens (po2 :: pos))).
+      rewrite <- !app_assoc, !map_app. rewrite app_assoc.
+      change (map tok_str [ASemi]) with [Str ";"].
+      rewrite machine_app, Hm1. rewrite <- map_app, Hm2.
+      split; [reflexivity|]. split; [|auto].
+      cbn [List.concat]. rewrite !map_app, He1, He2. reflexivity.
+  Qed.
+
+  Lemma sem_group_inv g ts :
+    sem_group e g = Some ts ->
+    exists n tss, sem_subj e (g_subj g) = Some n /\ seq_opt (map (sem_po e n) (g_pos g)) = Some tss /\ ts = List.concat tss.
+  Proof.
+    unfold sem_group. destruct (sem_subj e (g_subj g)) as [n|]; [|discriminate].
+    destruct (seq_opt (map (sem_po e n) (g_pos g))) as [tss|] eqn:E; cbn; [|discriminate].
+    intros H; inversion H; exists n, tss; auto.
+  Qed.
+
+  (** one statement group, from the subject to the final dot *)
+  Lemma group_run g ts s :
+    same_env s s0 -> state s = WS -> group_ok g = true -> sem_group e g = Some ts ->
+    exists s' ts', machine (map tok_str (group_tokens g)) s = (ts', Ok s') /\
+                   map erase_lex ts' = map erase_lex ts /\ same_env s' s0 /\ state s' = WS.
+  Proof.
+    intros Henv Hst Hok Hsem. unfold group_ok in Hok. rewrite !andb_true_iff in Hok.
+    destruct Hok as [[Hs Hne] Hpos].
+    apply sem_group_inv in Hsem. destruct Hsem as (n & tss & Hn & Htss & ->).
+    destruct (g_pos g) as [|po pos] eqn:Epos; [discriminate|].
+    destruct (HS (g_subj g) n s Henv Hs Hn) as (Hnc & raw & Hpe & Hts).
+    set (s1 := St (prefixes s) (base s) WP (Some raw) (tmp_p s) (tmp_o s)).
+    assert (Hl1 : loaded_s s1 n) by (repeat split; auto; apply Henv).
+    destruct (pos_then_dot pos po tss s1 n Hl1 eq_refl Hpos Htss) as (s2 & ts2 & Hm & He & Henv2 & Hs2).
+    exists s2, ts2. unfold group_tokens. rewrite Epos.
+    change (map tok_str (ASubj (g_subj g) :: ?l)) with ([tokS (g_subj g)] ++ map tok_str l). rewrite machine_app.
+    cbn [machine]. unfold step at 1. rewrite Hnc. unfold assign. rewrite Hst, Hpe. cbn [bind]. fold s1.
+    rewrite Hm. cbn. auto.
+  Qed.
+
+  (** T1: any number of groups, their tokens split into lines ANYWHERE *)
+  Lemma groups_run gs : forall tss s,
+    same_env s s0 -> state s = WS -> forallb group_ok gs = true ->
+    seq_opt (map (sem_group e) gs) = Some tss ->
+    exists s' ts', machine (map tok_str (flat_map group_tokens gs)) s = (ts', Ok s') /\
+                   map erase_lex ts' = map erase_lex (List.concat tss) /\ same_env s' s0 /\ state s' = WS.
+  Proof.
+    induction gs as [|g gs IH]; intros tss s Henv Hst Hok Hsem.
+    - cbn in Hsem. inversion Hsem; subst. exists s, []. cbn. auto.
+    - cbn [forallb] in Hok. apply andb_true_iff in Hok. destruct Hok as [Hg Hrest].
+      apply seq_opt_cons in Hsem. destruct Hsem as (ts0 & r' & Hg0 & Hr & ->).
+      destruct (group_run g ts0 s Henv Hst Hg Hg0) as (s1 & ts1 & Hm1 & He1 & Henv1 & Hs1).
+      destruct (IH r' s1 Henv1 Hs1 Hrest Hr) as (s2 & ts2 & Hm2 & He2 & Henv2 & Hs2).
+      exists s2, (ts1 ++ ts2). cbn [flat_map]. rewrite map_app, machine_app, Hm1, Hm2.
+      split; [reflexivity|]. split; [|auto]. cbn [List.concat]. rewrite !map_app, He1, He2. reflexivity.
+  Qed.
+
+  Theorem state_machine_any_split gs (ls : list (list atok)) tss s :
+    same_env s s0 -> state s = WS -> forallb group_ok gs = true ->
+    seq_opt (map (sem_group e) gs) = Some tss ->
+    List.concat ls = flat_map group_tokens gs ->
+    exists s' ts', machine_lines (map (map tok_str) ls) s = (ts', Ok s') /\
+                   map erase_lex ts' = map erase_lex (List.concat tss) /\ same_env s' s0 /\ state s' = WS.
+  Proof.
+    intros Henv Hst Hok Hsem Hsplit.
+    rewrite machine_lines_concat, <- concat_map, Hsplit.
+    apply groups_run; assumption.
+  Qed.
+End StateMachine.
